@@ -238,7 +238,8 @@ def gen_scenario(t, max_jobs=10, with_recovery=True):
                 term = ("COMPLETED", "COMPLETED", "FAILED", "CANCELLED")[t.draw(4, f"j{j}.a{a}.term")]
                 path.append({"running": run, "term": term, "dup": t.draw(3, "dup") == 2, "recover": False, "dup_running": t.draw(4, "dup.running") == 3})
             else:
-                path.append({"running": run, "term": ("FAILED", None)[t.draw(2, "viaFailed")], "dup": t.draw(3, "dup") == 2, "recover": True, "dup_running": t.draw(4, "dup.running") == 3})
+                path.append({"running": run, "term": ("FAILED", None)[t.draw(2, "viaFailed")], "dup": t.draw(3, "dup") == 2, "recover": True, "dup_running": t.draw(4, "dup.running") == 3,
+                             "direct_rollback": t.draw(4, "direct.rollback") == 3})
         jobs.append({"name": f"/s{j % 3}/0.{j}", "targets": targets, "req": req, "path": path,
                      # measured usage of the job's directories never exceeds what the job declared
                      # (a job writing more than it declared makes reserved+measured exceed the capacity
@@ -456,9 +457,14 @@ class Scenario:
                     sim.probe("duplicate_notification")
                     await sched.notify_status(name, st)
             if step["recover"]:
-                await self._release(name, Status.RECOVERY)
-                await sim.io("recover", name)
-                await sched.notify_status(name, Status.ROLLBACK)
+                if step.get("direct_rollback"):
+                    # out-of-order history: rolled back straight from RUNNING/FIREABLE/FAILED
+                    sim.probe("direct_rollback")
+                    await self._release(name, Status.ROLLBACK)
+                else:
+                    await self._release(name, Status.RECOVERY)
+                    await sim.io("recover", name)
+                    await sched.notify_status(name, Status.ROLLBACK)
                 sim.probe("rollback")
         self.done.add(name)
 
